@@ -512,10 +512,10 @@ def main(argv):
     c.proof_step(res, PID)
     known = {e["class"]: e for e in c.open_known(PID)}
     quick = tier == "quick"
-    n_doubles = 3000 if quick else 40000
-    n_lits = 3000 if quick else 60000
-    n_tonum = 1500 if quick else 20000
-    n_json = 1500 if quick else 20000
+    n_doubles = 3000 if quick else 25000
+    n_lits = 3000 if quick else 40000
+    n_tonum = 1500 if quick else 10000
+    n_json = 1500 if quick else 10000
     n_cli = 2000 if quick else 20000
 
     # ---------------------------------------------------------------- NUMTEXT: doubles
